@@ -435,7 +435,9 @@ func recursive(c *runner.Ctx) {
 	leaf := func(sort int, name string) *Tree { return &Tree{Sort: sort, Name: name} }
 	trees := []func() *Tree{
 		func() *Tree { return leaf(0, "") },
-		func() *Tree { return &Tree{Sort: 12, Name: "r", Children: []*Tree{leaf(12, ""), leaf(3, "ok"), leaf(0, "")}} },
+		func() *Tree {
+			return &Tree{Sort: 12, Name: "r", Children: []*Tree{leaf(12, ""), leaf(3, "ok"), leaf(0, "")}}
+		},
 		func() *Tree { return &Tree{Sort: 3, Name: "", Next: &Tree{Sort: 0, Name: "", Next: leaf(44, "")}} },
 		func() *Tree {
 			return &Tree{Sort: 5, Name: "root", Children: []*Tree{{Sort: 10, Name: "", Children: []*Tree{leaf(11, "x"), leaf(0, "")}}}, Next: leaf(10, "")}
